@@ -17,6 +17,7 @@ import random
 from pathlib import Path
 
 from .. import common as C
+from .. import forms as F
 from .. import gen_graph as G
 from ..oracles import hedge as H
 from ..oracles import id_run as R
@@ -29,6 +30,7 @@ RULE = ("ADMGs with 2-7 nodes (generator weighted towards sparse directed chains
         "outside the graph, empty Y, empty X) for the error taxonomy. A case is non-trivial when the query is valid "
         "and the run reached at least one of ID's lines 4-7.")
 ASSUMPTIONS = [
+    "argument FORMS (harness/forms.py, harness/oracles/id_run.py id_slots; chosen deterministically per case, stored in the case, tagged form_*): treatments / outcomes as set / frozenset / list / tuple / dict keys / generator / iterator / map or a bare Variable for a one-element set; the Identification made by Identification(query=Query(..), graph=..) by keyword or by position, by from_parts, or by from_expression from P[X](Y) and P(Y @ X) (valid queries only); identify_outcomes positional or by keyword; 'no conditions' omitted / None / an empty set or list -- for identify_outcomes an EMPTY collection is not None and routes the query through IDC with nothing to condition on (estimand E / sum_Y E), which the model side mirrors with identify_outcomes_c and an empty condition list; the graph through every public constructor. 'Caller's objects unchanged' covers every re-iterable argument collection (one-shot iterables are consumed by definition)",
     "clause 'leaves the caller's graph and query objects unchanged' is a Python-runtime clause (R): decided by deep comparison of the graph, the argument sets and the Identification/Query objects before and after every call, not by a theorem (the model is pure)",
     "clause 'refuses exactly when the effect is not identifiable (a hedge exists)': `id_fail_iff_hedge` proves refusal <=> a hedge (Y0/Spec/Hedge.lean: Shpitser-Pearl 2006 Def. 6 on vertex sets) exists for the ORIGINAL query, both directions on the graph; 'a hedge exists => not identifiable from P(v)' (Shpitser-Pearl Thm 4: two models agreeing on P(v) and differing on P_x(y)) is literature, not mechanised; 'estimand returned => identifiable, by that estimand' is C01's id_sound; the verdict is also compared per input with two independent decision procedures (c-component criterion; brute-force hedge search up to 6 nodes)",
     "`graph.topological_sort()` (networkx, on a graph rebuilt from a Python set) is a parameter `topo` of the model; the theorems assume it returns a linear extension of the directed part (trusted: networkx); the correspondence feeds the orders observed in the real run",
@@ -64,7 +66,19 @@ def _example_cases():
     return out
 
 
+def _slots(case):
+    return R.id_slots(case["X"], case["Y"], None, case.get("via", "identify"))
+
+
+def _forms(case):
+    return F.forms_of(case, _slots(case))
+
+
 def cases(rng: random.Random, tier: str):
+    return [F.assign(c, _slots(c)) for c in _cases(rng, tier)]
+
+
+def _cases(rng: random.Random, tier: str):
     out = [dict(c) for c in _corpus()] + _example_cases()
     n = 16000 if tier == "quick" else 90000
     for k in range(n):
@@ -94,18 +108,20 @@ def is_valid(case):
 
 def run_python(case):
     g = case["g"]
-    r = R.run_identify(g, case["X"], case["Y"], via=case.get("via", "identify"))
+    fm = _forms(case)
+    r = R.run_identify(g, case["X"], case["Y"], via=case.get("via", "identify"), forms=fm)
     valid = is_valid(case)
-    fail = None
+    fail = r["exc_msg"] if r["exc"] == "ConstructorFault" else None
     V = G.all_nodes(g)
     tags = {"kind": case.get("label", "?").split(":")[0], "n_nodes": len(V), "outcome": r["out"][0] + ":" + str(r["out"][1])[:14]
             if r["out"][0] == "err" else "ok", "valid": valid, "via": case.get("via", "identify"),
             "has_isolated": len(V) > len({x for e in g["di"] + g["bi"] for x in e}),
             "n_x": len(case["X"]), "n_y": len(case["Y"])}
     tags.update(R.line_tags(r["lines"]))
+    tags.update(R.id_form_tags(case, fm))
     if r["exc"] not in (None, "Unidentifiable"):
         tags["exception"] = r["exc"]
-    if valid:
+    if valid and fail is None:
         di = [tuple(e) for e in g["di"]]
         bi = [tuple(e) for e in g["bi"]]
         if r["exc"] not in (None, "Unidentifiable"):
@@ -130,11 +146,15 @@ def run_python(case):
 
 
 def request(case):
-    r = R.run_identify(case["g"], case["X"], case["Y"], via=case.get("via", "identify"))
+    fm = _forms(case)
+    r = R.run_identify(case["g"], case["X"], case["Y"], via=case.get("via", "identify"), forms=fm)
     tape, _ = R.tape_sexp(r["tape"])
     g = case["g"]
     gs = C.graph_sexp(G.all_nodes(g), g["di"], g["bi"])
     op = "identify_outcomes" if case.get("via") == "identify_outcomes" else "identify"
+    if op == "identify_outcomes" and fm.get("no_conditions", "").startswith("empty"):
+        # conditions=set() / [] is not None: api.py runs IDC with an empty conditioning set
+        return C.enc(["id", "identify_outcomes_c", gs, sorted(set(case["X"])), sorted(set(case["Y"])), [], tape])
     return C.enc(["id", op, gs, sorted(set(case["X"])), sorted(set(case["Y"])), tape])
 
 
